@@ -11,7 +11,7 @@ open(path, "w").write(src.replace(old, new, 1))
 try:
     codes = []
     for p in prop.split(","):
-        r = subprocess.run(["./check", p] + extra, cwd="/verif", capture_output=True, text=True)
+        r = subprocess.run(["./check", p] + extra, cwd="/verif", capture_output=True, text=True, env=dict(os.environ, VERIF_EVIDENCE_DIR="/tmp/ev-scratch"))
         lines = r.stdout.strip().splitlines()
         print("\n".join(l[:220] for l in lines[-7:]))
         codes.append(r.returncode)
